@@ -86,7 +86,7 @@ Definition nat_of_N_tr (n : N) : nat := match n with N0 => O | Npos p => nat_of_
 
 Inductive whole_res := WDone (cs : cstate) (steps : nat) | WDeadlock (steps : nat) | WSteps | WErr (w : string).
 
-Fixpoint auto_run (n : nat) (fuel : nat) (rnd : N) (cs : cstate) (steps : nat) : whole_res :=
+Fixpoint auto_run_with (prog : program) (n : nat) (fuel : nat) (rnd : N) (cs : cstate) (steps : nat) : whole_res :=
   match n with
   | O => WSteps
   | S n' =>
@@ -96,13 +96,15 @@ Fixpoint auto_run (n : nat) (fuel : nat) (rnd : N) (cs : cstate) (steps : nat) :
           let rnd' := lcg rnd in
           let k := if N.eqb rnd 0 then O else N.to_nat ((rnd' / 4294967296) mod N.of_nat (List.length l))%N in
           let tid := nth k l O in
-          match cstep whole_prog [] fuel cs tid with
-          | Ok (cs1, _) => auto_run n' fuel rnd' cs1 (S steps)
+          match cstep prog [] fuel cs tid with
+          | Ok (cs1, _) => auto_run_with prog n' fuel rnd' cs1 (S steps)
           | UB w => WErr ("UB: " ++ w)
           | NoFuel => WErr "out of fuel"
           end
       end
   end.
+
+Definition auto_run := auto_run_with whole_prog.
 
 Definition main_result (cs : cstate) : option Z :=
   match nth_error (cs_thr cs) 0 with
